@@ -212,34 +212,35 @@ Example c05_example_lazy_placeholder :
   exists r, decode_body body = Ok r /\ r_cigar r = [(0, 2)] /\ r_data r = [((78, 77), VNum tyC 1%Z)].
 Proof. vm_compute. split; [reflexivity|]. split; [reflexivity|]. eexists. repeat split; reflexivity. Qed.
 
-(* No modelled lazy accessor panics on a validated body (whether or not the eager decoder accepts
-   it), except cigar() in exactly one class: placeholder kSmN and a first CG field of type B whose
-   raw element bytes are not a whole number of 32-bit words (get_raw_cigar accepts any subtype,
-   Cigar::iter then reaches unreachable!()). *)
+(* No modelled lazy accessor panics on a validated body, whether or not the eager decoder accepts
+   it: every slice index is in range, and cigar().iter() never reaches the unreachable!() of
+   Cigar::iter (get_raw_cigar, as repaired in /repo 3808bd7, only returns a CG array of subtype I,
+   whose raw bytes are whole 32-bit words).  Before the repair the class "placeholder kSmN + first
+   CG:B field with raw bytes not a multiple of 4" panicked; it is the regression case
+   corpus/C05/lazy_cg_not_u32.case, shown below to fall back to the stored operations. *)
 Theorem c05_lazy_no_panic :
   forall body, validate body = Ok tt ->
     has_head body = true /\
     lzp_name body = Some (lz_name body) /\ lzp_cigar_raw body = Some (lz_cigar_raw body) /\
     lzp_seq body = Some (lz_seq body) /\ lzp_qual body = Some (lz_qual body) /\
     lzp_data_raw body = Some (lz_data_raw body) /\
-    (lzp_cigar body = None <-> cg_not_words body).
+    exists c, lzp_cigar body = Some c.
 Proof.
   intros body H. destruct (lazy_slices_ok body H) as (H1 & H2 & H3 & H4 & H5 & H6 & _).
-  repeat (split; [assumption|]). exact (lazy_cigar_panic_iff body H).
+  repeat (split; [assumption|]). exact (lazy_cigar_no_panic body H).
 Qed.
 Print Assumptions c05_lazy_no_panic.
 
-(* the class is inhabited: 1 base, stored CIGAR 1S39N, data CG:B,S of five elements (10 bytes);
-   the body is accepted by validate() and cigar() panics (finding
-   lazy-cigar-cg-array-not-u32-unreachable, reproduced on the implementation by the `lz` cases) *)
+(* the former panic class: 1 base, stored CIGAR 1S39N, data CG:B,S of five elements (10 bytes);
+   validate() accepts the body, the eager decoder rejects it, cigar() yields the stored operations *)
 Definition ex_cg_body : bytes :=
   [255;255;255;255; 255;255;255;255; 2; 255; 72;18; 2;0; 4;0; 1;0;0;0; 255;255;255;255;
    255;255;255;255; 0;0;0;0; 113;0; 20;0;0;0; 115;2;0;0; 240; 255;
    67;71;66;83; 5;0;0;0; 0;4; 3;0; 6;47; 6;7; 6;4].
-Theorem c05_lazy_cigar_panic_refuted :
-  exists body, validate body = Ok tt /\ lzp_cigar body = None /\ decode_body body = Err InvalidData.
-Proof. exists ex_cg_body. vm_compute. repeat split; reflexivity. Qed.
-Print Assumptions c05_lazy_cigar_panic_refuted.
+Example c05_example_lazy_cg_not_u32 :
+  validate ex_cg_body = Ok tt /\ lzp_cigar ex_cg_body = Some (Ok [(4, 1); (3, 39)]) /\
+  decode_body ex_cg_body = Err InvalidData.
+Proof. vm_compute. repeat split; reflexivity. Qed.
 
 (* non-vacuity: a mapped record with an odd-length lower-case/non-IUPAC sequence *)
 Definition ex_rec : record :=
